@@ -259,11 +259,8 @@ impl<'a> TimeZoneRef<'a> {
                         } else if local_leap_time >= transition_end
                             && local_leap_time <= transition_start
                         {
-                            if prev.ut_offset < after_ltt.ut_offset {
-                                return Ok(crate::MappedLocalTime::Ambiguous(prev, after_ltt));
-                            } else {
-                                return Ok(crate::MappedLocalTime::Ambiguous(after_ltt, prev));
-                            }
+                            // `prev` is in effect before the transition: it gives the earliest instant.
+                            return Ok(crate::MappedLocalTime::Ambiguous(prev, after_ltt));
                         }
                     }
                     Ordering::Equal => {
